@@ -116,11 +116,15 @@ FromFastaAlt(entries) == FromGapped(ReplaceAltGaps([k \in DOMAIN entries |-> ent
 (* ------------------------------------------------------------------ indexing *)
 PickSeq(s, pos) == [k \in DOMAIN pos |-> s[pos[k] + 1]]
 
-\* alignment[idx]: columns only.  Dom_Index1: idx is not a bare integer.
+\* alignment[idx]: columns only.  A bare integer is not an alignment index ("a single sequence or
+\* alignment column cannot be selected"): refused.
 IndexCols(A, idx) ==
   LET r == Resolve(idx, NCols(A)) IN
-  IF ~r.ok THEN [oc |-> "Rejected", A |-> A]
+  IF idx[1] = "int" \/ ~r.ok THEN [oc |-> "Rejected", A |-> A]
   ELSE [oc |-> "ok", A |-> Aln(A.seqs, PickSeq(A.tr, r.pos))]
+\* known finding (recorded, not repaired): alignment[int] is not refused, it returns an object whose
+\* trace is one-dimensional
+KB_C11_IntIndex1D(cidx, ridx) == cidx[1] = "int" /\ ridx[1] = "none"
 
 \* alignment[cidx, ridx]; integers are refused (IndexError in the code; any exception counts);
 \* Dom_Index2: at most one of the two is an index array / mask (numpy would pair them up)
